@@ -9,7 +9,7 @@ from harness import zones as Z
 ID = "C02"
 BACKENDS = ("py", "rs")
 GEN_MODULES = ()
-MIN_THEOREMS = 5
+MIN_THEOREMS = 11
 US = D.US
 YMAX = Z.YMAX_QUICK
 ENTRIES = ("datetime", "tzconvert", "tzdatetime", "set", "on", "at", "replace", "parse", "local", "instance", "naivefn")
